@@ -20,7 +20,10 @@ impl OutlinePen for NullPen {
 }
 
 fn push(v: i64, out: &mut Vec<u8>) {
-    if (0..=255).contains(&v) {
+    if v == 1 << 30 {
+        // 2^30 = (0x4000 * 0x4000 / 64) * 0x4000 / 64 in 26.6 multiplication
+        out.extend([0xBA, 0x40, 0, 0x40, 0, 0x40, 0, 0x63, 0x63]);
+    } else if (0..=255).contains(&v) {
         out.extend([0xB0, v as u8]);
     } else {
         out.push(0xB8);
@@ -32,7 +35,9 @@ fn size_of(ins: &Value) -> usize {
     match ins["op"].as_str().unwrap() {
         "PUSH" => {
             let v = ins["arg"].as_i64().unwrap();
-            if (0..=255).contains(&v) {
+            if v == 1 << 30 {
+                9
+            } else if (0..=255).contains(&v) {
                 2
             } else {
                 3
@@ -76,6 +81,9 @@ pub fn assemble(code: &[Value]) -> Vec<u8> {
             "ENDF" => out.push(0x2D),
             "CALL" => out.push(0x2B),
             "LOOPCALL" => out.push(0x2A),
+            "DELTAC" => out.push(0x73),
+            "SLOOP" => out.push(0x17),
+            "FLIPPT" => out.push(0x80),
             "JSELF" => out.extend([0xB0, 0, 0x1C]),
             op @ ("JMPR" | "JROT" | "JROF") => {
                 // offsets are relative to the jump opcode byte
@@ -115,7 +123,7 @@ pub fn build_font(funcs: &[Value], glyph: &[Value]) -> Vec<u8> {
     truetype_font(&[Glyph::Empty, g], &opts).expect("vm font")
 }
 
-const KINDS: [&str; 12] = ["ExceededExecutionBudget", "ValueStackOverflow", "ValueStackUnderflow", "InvalidJump", "InvalidDefinition", "CallStackOverflow", "CallStackUnderflow", "UnexpectedEndOfBytecode", "DefinitionInGlyphProgram", "UnhandledOpcode", "NestedDefinition", "InvalidStackValue"];
+const KINDS: [&str; 16] = ["InvalidCvtIndex", "NegativeLoopCounter", "InvalidPointIndex", "InvalidPointRange", "ExceededExecutionBudget", "ValueStackOverflow", "ValueStackUnderflow", "InvalidJump", "InvalidDefinition", "CallStackOverflow", "CallStackUnderflow", "UnexpectedEndOfBytecode", "DefinitionInGlyphProgram", "UnhandledOpcode", "NestedDefinition", "InvalidStackValue"];
 
 /// (pedantic outcome class, non-pedantic outcome class)
 pub fn run_program(font: &[u8]) -> Result<(String, String), String> {
@@ -125,7 +133,12 @@ pub fn run_program(font: &[u8]) -> Result<(String, String), String> {
         let inst = HintingInstance::new(&outlines, Size::new(16.0), LocationRef::default(), HintingOptions { engine: Engine::Interpreter, target: Target::Mono }).map_err(|e| format!("instance: {e}"))?;
         let g = outlines.get(GlyphId::new(1)).ok_or("no glyph 1")?;
         let class = |pedantic: bool| -> String {
-            match g.draw(DrawSettings::hinted(&inst, pedantic), &mut NullPen) {
+            let t = std::time::Instant::now();
+            let r = g.draw(DrawSettings::hinted(&inst, pedantic), &mut NullPen);
+            if t.elapsed().as_millis() > 4000 {
+                return format!("SLOW:{:?}", t.elapsed());
+            }
+            match r {
                 Ok(_) => "ok".to_string(),
                 Err(e) => {
                     let d = format!("{e:?}");
@@ -153,7 +166,9 @@ pub fn replay(path: &str, ev: &mut Vec<Value>, rep: &mut Report) {
                 if t.elapsed().as_secs() > 5 {
                     rep.violation(&format!("a model program of {} instructions ran for {:?}", glyph.len(), t.elapsed()), case.clone());
                 }
-                if lax != "ok" {
+                if ped.starts_with("SLOW") || lax.starts_with("SLOW") {
+                    rep.violation(&format!("one draw of a {}-instruction program took {} (pedantic) / {} (non-pedantic)", glyph.len(), ped, lax), case.clone());
+                } else if lax != "ok" {
                     rep.violation(&format!("non-pedantic hinting surfaced an error: {lax}"), case.clone());
                 }
                 let same = ped == c["outcome"].as_str().unwrap();
@@ -218,4 +233,64 @@ pub fn draw_composite(font: &[u8], gid: u32) -> Result<(String, u64), String> {
         }
     })
     .map_err(|p| format!("panic: {p}"))?
+}
+
+// ---- chains far beyond the depth limits, run in a child process -----------------------------------
+/// COLRv1 table: base glyph 1 -> PaintGlyph -> PaintGlyph -> ... (n times) -> PaintSolid, built byte by byte
+pub fn deep_paint(n: usize) -> String {
+    use skrifa::color::{Brush, ColorPainter, CompositeMode, PaintCachedColorGlyph, PaintError, Transform};
+    struct Nop;
+    impl ColorPainter for Nop {
+        fn push_transform(&mut self, _: Transform) {}
+        fn pop_transform(&mut self) {}
+        fn push_clip_glyph(&mut self, _: GlyphId) {}
+        fn push_clip_box(&mut self, _: read_fonts::types::BoundingBox<f32>) {}
+        fn pop_clip(&mut self) {}
+        fn fill(&mut self, _: Brush<'_>) {}
+        fn paint_cached_color_glyph(&mut self, _: GlyphId) -> Result<PaintCachedColorGlyph, PaintError> {
+            Ok(PaintCachedColorGlyph::Unimplemented)
+        }
+        fn push_layer(&mut self, _: CompositeMode) {}
+        fn pop_layer(&mut self) {}
+    }
+    // header (34 bytes, version 1), BaseGlyphList at 34: count(4)=1, record: glyph(2)=1, paintOffset(4)=10 (from list start)
+    let mut t: Vec<u8> = vec![0, 1, 0, 0];
+    t.extend(0u32.to_be_bytes()); // baseGlyphRecordsOffset
+    t.extend(0u32.to_be_bytes()); // layerRecordsOffset
+    t.extend([0, 0]); // numLayerRecords
+    t.extend(34u32.to_be_bytes()); // baseGlyphListOffset
+    t.extend([0u8; 16]); // layerList, clipList, varIndexMap, varStore offsets
+    assert_eq!(t.len(), 34);
+    t.extend(1u32.to_be_bytes());
+    t.extend([0, 1]);
+    t.extend(10u32.to_be_bytes());
+    for _ in 0..n {
+        t.extend([10, 0, 0, 6, 0, 2]); // PaintGlyph: format 10, paintOffset 6 (u24), glyph 2
+    }
+    t.extend([2, 0, 0, 0x40, 0]); // PaintSolid: palette index 0, alpha 1.0
+    let tri = |k: i16| {
+        let pts = vec![CurvePoint::new(0, 0, true), CurvePoint::new(100 + k, 0, true), CurvePoint::new(50, 100, true)];
+        Glyph::Simple(SimpleGlyph { bbox: Bbox { x_min: 0, y_min: 0, x_max: 100 + k, y_max: 100 }, contours: vec![Contour::from(pts)], instructions: vec![] })
+    };
+    let cpal: Vec<u8> = vec![0, 0, 0, 1, 0, 1, 0, 1, 0, 0, 0, 14, 0, 0, 10, 20, 30, 255];
+    let opts = SynthOpts { extra: vec![(Tag::new(b"COLR"), t), (Tag::new(b"CPAL"), cpal)], ..Default::default() };
+    let font = truetype_font(&[Glyph::Empty, tri(1), tri(2)], &opts).expect("deep paint font");
+    let f = FontRef::new(&font).unwrap();
+    match f.color_glyphs().get(GlyphId::new(1)) {
+        None => "error: no colour glyph".to_string(),
+        Some(g) => match g.paint(LocationRef::default(), &mut Nop) {
+            Ok(()) => "ok".to_string(),
+            Err(e) => format!("error: {e:?}"),
+        },
+    }
+}
+
+pub fn deep_composite(n: usize) -> String {
+    let comps: Vec<Vec<u16>> = (0..=n).map(|i| if i == n { vec![] } else { vec![i as u16 + 1] }).collect();
+    let font = composite_font(&comps);
+    match draw_composite(&font, 0) {
+        Ok((o, _)) if o == "ok" => "ok".to_string(),
+        Ok((o, _)) => format!("error: {o}"),
+        Err(p) => format!("panic: {p}"),
+    }
 }
